@@ -333,7 +333,7 @@ pub fn c04(out: &mut Out, rng: &mut Rng, tier: &Tier) {
     let seed = rng.next();
     let mut c = 0usize;
     let mut st = Stats::default();
-    let (ns, nb) = if tier.thorough { (300, 40) } else { (12, 2) };
+    let (ns, nb) = if tier.thorough { (400, 60) } else { (48, 8) };
     type K31 = VarIntKmer<u64, debruijn::kmer::K31>;
     c04_pair::<Kmer4, Kmer2>(out, seed, tier, &mut c, ns, &mut st);
     c04_pair::<Kmer4, Kmer3>(out, seed, tier, &mut c, ns, &mut st);
@@ -469,7 +469,7 @@ pub fn c06_graph(out: &mut Out, rng: &mut Rng, tier: &Tier) {
     let seed = rng.next();
     let mut c = 0usize;
     let mut st = Stats::default();
-    let (ns, nb) = if tier.thorough { (120, 16) } else { (8, 1) };
+    let (ns, nb) = if tier.thorough { (160, 24) } else { (20, 3) };
     type K31 = VarIntKmer<u64, debruijn::kmer::K31>;
     c06_pair::<Kmer4, Kmer2>(out, seed, tier, &mut c, ns, &mut st);
     c06_pair::<Kmer5, Kmer3>(out, seed, tier, &mut c, ns, &mut st);
